@@ -73,6 +73,9 @@ type PosReplacer struct {
 }
 
 func (c *replacerCompiler) compilePosReplacer(v reflect.Value) Replacer {
+	if c.keepPos {
+		return ValueReplacer{Value: v}
+	}
 	return PosReplacer{
 		Fset: c.fset,
 		Pos:  v.Interface().(token.Pos),
